@@ -169,7 +169,8 @@ package keeper
 //@           has(st.locking.Locking, pair(d, target)) == old(has(st.locking.Locking, pair(d, target))) && st.locking.Locking[pair(d, target)] == old(st.locking.Locking[pair(d, target)])))
 //@ ensures unjailed_index: err == nil && v0.Status == 4 && unjail ==> forallb(d, amt(v1.Locking, d) > 0 ==> has(st.locking.Locking, pair(d, target)) && st.locking.Locking[pair(d, target)] == amt(v1.Locking, d))
 //@ ensures index_others: err == nil ==> forallb(d, forallb(a, a != target ==> has(st.locking.Locking, pair(d, a)) == old(has(st.locking.Locking, pair(d, a))) && st.locking.Locking[pair(d, a)] == old(st.locking.Locking[pair(d, a)])))
-//@ ensures ranked_current: err == nil && (v1.Status == 1 || v1.Status == 2) ==> has(st.locking.PowerRanking, pair(v1.Power, target))
+//@ ensures ranked_current: err == nil && (v1.Status == 1 || v1.Status == 2) && v1.Power > 0 ==> has(st.locking.PowerRanking, pair(v1.Power, target))
+//@ ensures [C13] powerless_unranked: err == nil && (v0.Status == 1 || v0.Status == 2) && v0.Power == 0 && v1.Power == 0 ==> !has(st.locking.PowerRanking, pair(0, target))
 //@ ensures stale_rank_removed: err == nil && (v0.Status == 1 || v0.Status == 2) && v1.Power != v0.Power ==> !has(st.locking.PowerRanking, pair(v0.Power, target))
 //@ ensures others_untouched: err == nil ==> forallb(a, a != target ==> has(st.locking.Validators, a) == old(has(st.locking.Validators, a)) && st.locking.Validators[a] == old(st.locking.Validators[a]))
 //@ ensures rest_kept: err == nil ==> v1.Reward == v0.Reward && v1.GasReward == v0.GasReward && v1.Pubkey == v0.Pubkey && v1.SigningInfo == v0.SigningInfo && v1.JailedUntil == v0.JailedUntil
